@@ -911,7 +911,6 @@ impl Check for C15 {
         // (One entry in the table at that moment, so the iteration order of the table does not matter.)
         if base.http && shard == 0 {
             let leader = base.policies[0].leader;
-            let follower = (0..n).find(|q| *q != leader).unwrap();
             let mut s = base.clone();
             let mut second = s.policies[0].clone();
             second.comp = 2;
@@ -920,7 +919,8 @@ impl Check for C15 {
             s.concurrency = vec![2; n];
             s.explicit = vec![format!("schedule p{leader} c1")];
             s.injections = vec![
-                Injection { after_events: 1, action: Action::StrayMsg { party: leader, comp: 1, from: follower }, burst: false, burst_before: false },
+                // (a sender index out of range: the machine will refuse the message, nothing reaches the engine)
+                Injection { after_events: 1, action: Action::StrayMsg { party: leader, comp: 1, from: n }, burst: false, burst_before: false },
                 Injection { after_events: 1, action: Action::DupSchedule { party: leader, comp: 2, template: None }, burst: false, burst_before: false },
                 Injection { after_events: 1, action: Action::Cancel { party: leader, comp: 1 }, burst: false, burst_before: false },
             ];
